@@ -205,6 +205,40 @@ static void two_resumers_prog()
     pmc_outcome("rounds=%d", rounds);
 }
 
+// more live (blocked) tasks than the queue's thread map holds (pika.thread_queue.max_thread_count, here 2):
+// the tasks submitted from outside are staged; all of them must be turned into threads and run, although the
+// earlier ones stay blocked until the last one has been entered
+static void staged_beyond_limit_prog()
+{
+    static Ledger L;
+    L = Ledger{};
+    g = &L;
+    int workers = 1 + pmc_choose(2, 0);
+    pmc_on_stuck(on_stuck);
+    rt::config c;
+    c.workers = workers;
+    c.extra = {"pika.thread_queue.max_thread_count=2", "pika.thread_queue.min_add_new_count=1", "pika.thread_queue.max_add_new_count=1"};
+    rt::start(c);
+    static int entered;
+    entered = 0;
+    auto& ev = *new pika::experimental::event;
+    int const N = 4 * workers;
+    g->spawned = N;
+    static int done[8];
+    for (int i = 0; i < 8; ++i) done[i] = 0;
+    for (int i = 0; i < N; ++i)
+        rt::spawn([&, i, N] {
+            if (++entered == N) ev.set();
+            else ev.wait();    // blocked (suspended) until every task has been entered
+            done[i] = 1;
+        });
+    rt::stop();
+    int ndone = 0;
+    for (int i = 0; i < N; ++i) ndone += done[i];
+    PMC_ASSERT(entered == N && ndone == N, "task-dropped", "%d of %d tasks were entered, %d ran to completion (thread map limit 2 per queue)", entered, N, ndone);
+    pmc_outcome("workers=%d", workers);
+}
+
 int main(int argc, char** argv)
 {
     static const char* sites = "thread_data::(set_state_tagged|restore_state|set_state)|thread_queue|scheduling_loop|queue_holder|set_thread_state|set_active_state|create_work|create_thread";
@@ -213,6 +247,7 @@ int main(int argc, char** argv)
     static const char* nfocus = "F-addr: state word of every task; F-site (rmw, cas): thread_data state transitions, set_thread_state/set_active_state, scheduling_loop (switch_status, queue hand-off)";
     static const pmc_spec specs[] = {
         // quick tier: narrow focus, every policy at bound 1, default policy at bound 2
+        {"staged_beyond_limit", staged_beyond_limit_prog, 0, 1, 0.04, 0.03, 1, nfocus, nsites, "rc"},
         {"two_resumers", two_resumers_prog, 1, 2, 0.08, 0.05, 1, nfocus, nsites, "rc"},
         {"recycled_after_interrupt", recycled_prog, 1, 2, 0.06, 0.04, 1, nfocus, nsites, "rc"},
         {"lpf_w2_c2", tree_prog<0, 2, 2>, 1, -1, 0.3, 0, 1, nfocus, nsites, "rc"},
